@@ -194,10 +194,10 @@ PROPS = {
         "assumptions": COMMON_ASSUME + ["replica-set and pod names unique within a namespace (API server)"],
     },
     "C11": {
-        "level_text": "Lean theorems: downward closure of the safety predicates under dropped writes (C11_all_sublist, C11_nodup_sublist, C11_budget_sublist) and their use C11_safe_under_faults_active (whatever subset of a planned sync's creations and deletions is applied, the availability budget, the cap, creation-only-on-empty-eligible-nodes and one-creation-per-node hold), C11_stateless_filter (the per-node map contract holds for EVERY state of the in-memory back-off, so a fresh instance after a crash is one instance of it), C11_two_step (= C07_recoverable). Recovery to the same final state is checked, not proved: the scenario_faults stream replays the corpus (first deployment, rolling update, canary start and promotion, canary failure and rollback, node removal, settings change) with a fault at every index k of the failure-free run's API writes and every kind (call rejected, applied but answer lost, process stop before / after the write with fresh reconciler instances), pairs in the thorough tier; safety clauses are evaluated on every step and the final pods/status are compared with the failure-free run.",
+        "level_text": "Lean theorems: downward closure of the safety predicates under dropped writes (C11_all_sublist, C11_nodup_sublist, C11_budget_sublist) and their use C11_safe_under_faults_active (whatever subset of a planned sync's creations and deletions is applied, the availability budget, the cap, creation-only-on-empty-eligible-nodes and one-creation-per-node hold), C11_stateless_filter (the per-node map contract holds for EVERY state of the in-memory back-off, so a fresh instance after a crash is one instance of it), C11_two_step (= C07_recoverable). Recovery to the same final state is checked, not proved: the scenario_faults stream replays the corpus (first deployment, rolling update, canary start and promotion, canary failure by the operator and rollback, canary AUTO-fail on crash-looping pods and rollback, node removal, settings change) with a fault at every index k of the failure-free run's API writes and every kind (call rejected, applied but answer lost, process stop before / after the write with fresh reconciler instances), pairs in the thorough tier; safety clauses are evaluated on every step and the final pods/status are compared with the failure-free run.",
         "level_note": TB + "Safety under faults = proof (per-sync theorems quantified over every store and back-off state + downward closure). Recovery / same fixpoint inherits C02's partial label and is scenario-level evidence on the real reconcilers against the simulated API server.",
         "adopt": ["C01", "C03", "C04", "C05", "C07", "C12"],
-        "streams": [("scenario_faults", 1344, 2800), ("scenario", 15, 300), ("eds_reconcile", 2500, 40000), ("ers_reconcile", 1000, 20000)],
+        "streams": [("scenario_faults", 1568, 3200), ("scenario", 15, 300), ("eds_reconcile", 2500, 40000), ("ers_reconcile", 1000, 20000)],
         "partial": ["convergence after the fault to the failure-free final state is stream-level evidence (inherits C02_converges)"],
         "trusted_base": ["fault injection in the simulated API server: reject / applied-but-error / process stop (no later write of that reconcile is applied, reconcilers rebuilt)"],
         "assumptions": COMMON_ASSUME,
@@ -212,11 +212,14 @@ BRIDGE_TB = {
     "EdsProofs.BridgeCleanup": "shouldDeleteERS is TRANSLATED from controller.go (Generated/DecCleanup.lean) and proved equal to the model (EdsProofs/BridgeCleanup.lean, src_shouldDeleteERS)",
     "EdsProofs.BridgeDefaults": "IsDefaulted*, Default* and ValidateExtendedDaemonSetSpec are TRANSLATED from extendeddaemonset_default.go / _validate.go (Generated/DecDefaults.lean) and proved equal to the model, nil dereference = none (EdsProofs/BridgeDefaults.lean, src_*)",
     "EdsProofs.BridgeSlowStart": "getRollingUpdateStartTime and calculateMaxCreation are TRANSLATED from rollingupdate.go (Generated/DecSlowStart.lean) and proved equal to the model (EdsProofs/BridgeSlowStart.lean, src_*)",
+    "EdsProofs.BridgeConds": "the condition-list helpers of both conditions packages (GetIndexForConditionType, Get…StatusCondition, IsConditionTrue, Update…StatusCondition, UpdateErrorCondition: the model's findCond / isCondTrue / updateCond), retrieveReplicaSetStatus (ersRole), isCanaryActive, and the pod helpers of pkg/controller/utils/pod (IsPodReady, IsPodAvailable, HighestRestartCount, MostRecentRestart, CannotStart, PendingCreate, IsCannotStartReason, convertReasonToEDSStatusReason, HasPodSchedulerIssue, affinity.GetNodeNameFromAffinity) are TRANSLATED, range loops included (Generated/DecConds.lean), and proved equal to the model applied to the harness's canonical form of the Go records (EdsProofs/BridgeConds.lean, src_*; Go.canon* in EdsModel/GoPrelude.lean restate harness/canon). HighestRestartCount / MostRecentRestart are bridged under Go.lastStateWF (a lastState that is set is set to terminated): without it the Go functions dereference nil (finding_*_panics)",
 }
 BRIDGES = {
     "C05": ["EdsProofs.BridgeCanary"],
     "C08": ["EdsProofs.BridgeCanary"],
-    "C14": ["EdsProofs.BridgeCanary"],
+    "C14": ["EdsProofs.BridgeCanary", "EdsProofs.BridgeConds"],
+    "C04": ["EdsProofs.BridgeConds"],
+    "C06": ["EdsProofs.BridgeConds"],
     "C19": ["EdsProofs.BridgeCanary"],
     "C07": ["EdsProofs.BridgeCleanup", "EdsProofs.BridgeCanary"],
     "C13": ["EdsProofs.BridgeCleanup"],
@@ -322,3 +325,21 @@ for _p, _l in MORE7.items():
 PROPS["C10"]["level_text"] += " Sync level (EdsProps/C10c): C10_sync_no_spurious_replace(_canary) -- every pod a whole replica-set sync deletes in order to update it is out of date for what the sync read (comparePod = false), hence C10_sync_up_to_date_kept."
 PROPS["C08"]["level_text"] += " Sync level (EdsProps/C08c): C08_sync_paused_no_update_delete, C08_sync_frozen_no_create, C08_sync_resume(_frozen) (the plan equals the plan without the annotation), C08_sync_ers_annotations_irrelevant (annotations carried by the replica set object never pause or freeze), C08_sync_flags_partial (written conditions = the ExtendedDaemonSet's current annotations, for a defaulted owner; the counterexample for a non-defaulted owner is proved)."
 PROPS["C12"]["level_text"] += " C12_no_adoption (EdsProps/C12c): the active / canary replica set named by a written status is a member of ownErs (namespace and name label), C12_foreign_never_named."
+
+# EdsProps/L3Live (seventh round): liveness THROUGH the canary phases at the cluster level — one
+# ExtendedDaemonSet reconcile promotes (promotion rule due) or rolls back (failed canary; also when the
+# spec write was dropped and a second reconcile completes it), after which k >= 2*outdated + empty
+# cooperative rounds of the now active replica set reach ClusterConverged: every eligible node runs
+# exactly one Ready pod of the LIVE template, nothing else, further syncs write nothing, the other
+# replica sets are inert leftovers.
+L3LIVE = "EdsProps.L3Live"
+for _p, _pat in (("C02", "re:^L3Live_"), ("C07", "re:^L3Live_(rollback|converges_after_rollback)"),
+                 ("C11", "re:^L3Live_(rollback_pending|rollback_steps|promotion_stepF)"),
+                 ("C05", "re:^L3Live_promotion_(step|writes)$"), ("C14", "re:^L3Live_converges")):
+    PROPS[_p]["extra_theorems"] = PROPS[_p].get("extra_theorems", []) + [(L3LIVE, _pat)]
+PROPS["C02"]["partial"] = ["C02_converges_store and its cluster-level compositions L3Live_converges_after_promotion / _after_rollback assume: instantaneous cooperative kubelet, no ExtendedDaemonsetSetting on the listed nodes, strategy parameters >= 1, not paused/frozen, no API fault during the replica-set rounds, no node or pod churn during the rounds (scenario-level evidence for those: scenario, scenario_histories, scenario_faults_rollback)"]
+PROPS["C02"]["level_text"] += " CLUSTER LEVEL THROUGH A CANARY (EdsProps/L3Live): L3Live_promotion_step (promotion rule due => one ExtendedDaemonSet reconcile makes the up-to-date replica set active, canary cleared, spec unchanged), L3Live_rollback_steps (failed canary => active unchanged, canary cleared, spec.template restored to the active template; completed by the next reconcile when the spec write was dropped), L3Live_converges_after_promotion / _after_rollback (then k >= 2*outdated + empty cooperative rounds of the cluster machine reach ClusterConverged for the LIVE template; bound attained on the example)."
+PROPS["C07"]["level_text"] += " L3Live_converges_after_rollback: after the rollback the former canary nodes are served again and the whole cluster converges to the previously active template (also when the spec write was dropped once)."
+
+# C09's delete bound rests on the translated limits kernel as C03's does: the bridge is an obligation of C09 too
+PROPS["C09"]["extra_theorems"] = PROPS["C09"].get("extra_theorems", []) + [("EdsProps.C03", "C03_kernel_is_source"), ("EdsProps.C03", "C03_cap")]
